@@ -42,8 +42,9 @@ void usejit()
   auto solver2 = B(micm::JitRosenbrockSolverParameters(micm::RosenbrockSolverParameters::ThreeStageRosenbrockParameters()))
                     .SetSystem(micm::System(micm::SystemParameters{ .gas_phase_ = micm::Phase{ { a, b } } })).SetReactions({ r }).SetNumberOfGridCells(2).Build();
   solver = std::move(solver2);
-  auto state = solver.GetState();
-  auto res = solver.Solve(1.0, state);
+  auto solver3 = std::move(solver);
+  auto state = solver3.GetState();
+  auto res = solver3.Solve(1.0, state);
 }
 '''
 
@@ -65,7 +66,8 @@ void specials()
   auto solver2 = micm::CpuSolverBuilder<micm::RosenbrockSolverParameters>(micm::RosenbrockSolverParameters::ThreeStageRosenbrockParameters())
                     .SetSystem(s1).SetReactions({ r }).Build();
   solver = std::move(solver2);             // Solver::operator=(Solver&&)
-  auto st = solver.GetState();
+  auto solver3 = std::move(solver);        // Solver(Solver&&)
+  auto st = solver3.GetState();
   auto st2 = st;                           // State copy constructor
   st2 = st;                                // State copy assignment
   auto st3 = std::move(st2);               // State move constructor
@@ -159,10 +161,12 @@ def classify(fn, cls, kind):
         else:
             st = "from:" + "+".join(sorted(srcs))
         prev = status.get(f)
-        # several statements about one member: the worst one stands
-        order = lambda s: 0 if s == "same" else 1
-        if prev is None or order(st) >= order(prev):
+        # statements are met in execution order: an unconditional one decides the final value; a conditional one after
+        # it is harmless only if both take the member from the same member of the source
+        if not conditional or prev is None:
             status[f] = st
+        elif not (prev == "same" and srcs == {f}):
+            status[f] = "conditional"
 
     base_called = set()
 
@@ -259,7 +263,7 @@ def collect(ast, out):
             continue
         if not d.get("completeDefinition") and d.get("kind") == "CXXRecordDecl":
             continue
-        if d.get("_parent_kind") in ("ClassTemplateDecl", "ClassTemplatePartialSpecializationDecl"):
+        if d.get("kind") == "CXXRecordDecl" and d.get("_parent_kind") in ("ClassTemplateDecl", "ClassTemplatePartialSpecializationDecl"):
             continue            # the template pattern: members of the source are dependent names there; instantiations follow
         cname = d.get("name")
         if not cname:
